@@ -30,6 +30,7 @@ type ChildSpec struct {
 	IgnoreSignals      bool
 	Forks              int
 	ForksIgnoreSignals bool
+	AsUser             bool // the task command names a user (the one the executor itself runs as)
 }
 
 type TransitionSpec struct {
@@ -469,6 +470,7 @@ func genChild(t *rapid.T) ChildSpec {
 	c.IgnoreSignals = rapid.IntRange(0, 3).Draw(t, "ignores") == 0
 	c.Forks = rapid.SampledFrom([]int{0, 0, 1, 2}).Draw(t, "forks")
 	c.ForksIgnoreSignals = c.Forks > 0 && rapid.IntRange(0, 3).Draw(t, "forksIgnore") == 0
+	c.AsUser = rapid.IntRange(0, 3).Draw(t, "asUser") == 0
 	return c
 }
 
@@ -571,6 +573,7 @@ func TestFixed(t *testing.T) {
 	vh.Fixed(t, prop, "basic-start-stop-after-child-exited", basicPlan(ChildSpec{ExitAfterMs: 100}, conf, start, stop), run)
 	vh.Fixed(t, prop, "basic-start-stop-after-child-failed", basicPlan(ChildSpec{ExitAfterMs: 100, ExitCode: 3}, conf, start, stop), run)
 	vh.Fixed(t, prop, "basic-start-stop-start-stop", basicPlan(ChildSpec{ExitAfterMs: -1, Forks: 1}, conf, start, stop, tr(300, "START", "CONFIGURED", "RUNNING"), stop), run)
+	vh.Fixed(t, prop, "basic-with-user-start-stop-start-kill", basicPlan(ChildSpec{ExitAfterMs: -1, Forks: 1, AsUser: true}, conf, start, stop, tr(300, "START", "CONFIGURED", "RUNNING"), Step{DelayMs: 400, Op: "kill"}), run)
 	vh.Fixed(t, prop, "basic-kill-immediately-after-start", basicPlan(lives, conf, start, Step{Op: "kill"}), run)
 	vh.Fixed(t, prop, "basic-kill-while-running", basicPlan(ChildSpec{ExitAfterMs: -1, Forks: 1}, conf, start, Step{DelayMs: 600, Op: "kill"}), run)
 	vh.Fixed(t, prop, "basic-kill-right-after-launch", basicPlan(lives, Step{DelayMs: 20, Op: "kill"}), run)
@@ -587,6 +590,7 @@ func TestFixed(t *testing.T) {
 	vh.Fixed(t, prop, "direct-kill-pid-unknown-exits-on-done-forks-remain", directPlan(ChildSpec{ExitAfterMs: -1, Forks: 2}, DeviceSpec{InitialState: "STANDBY", ReportPid: false, ExitOnDoneMs: 0}, await, Step{DelayMs: 300, Op: "kill"}), run)
 	vh.Fixed(t, prop, "direct-kill-child-ignores-signals", directPlan(ChildSpec{ExitAfterMs: -1, IgnoreSignals: true}, DeviceSpec{InitialState: "STANDBY", ReportPid: true, ExitOnDoneMs: -1}, await, Step{DelayMs: 300, Op: "kill"}), run)
 	vh.Fixed(t, prop, "direct-kill-pid-unknown", directPlan(ChildSpec{ExitAfterMs: -1, Forks: 1}, DeviceSpec{InitialState: "STANDBY", ReportPid: false, ExitOnDoneMs: -1}, await, Step{DelayMs: 300, Op: "kill"}), run)
+	vh.Fixed(t, prop, "direct-with-user-kill-pid-unknown", directPlan(ChildSpec{ExitAfterMs: -1, Forks: 1, AsUser: true}, DeviceSpec{InitialState: "STANDBY", ReportPid: false, ExitOnDoneMs: -1}, await, Step{DelayMs: 300, Op: "kill"}), run)
 	vh.Fixed(t, prop, "direct-kill-with-forks", directPlan(ChildSpec{ExitAfterMs: -1, Forks: 2}, readyDev, await, Step{DelayMs: 300, Op: "kill"}), run)
 	vh.Fixed(t, prop, "direct-kill-after-child-died", directPlan(ChildSpec{ExitAfterMs: 300, ExitCode: 1}, readyDev, await, Step{DelayMs: 1000, Op: "kill"}), run)
 	vh.Fixed(t, prop, "direct-kill-device-hangs-on-stop", directPlan(lives, DeviceSpec{InitialState: "STANDBY", ReportPid: true, ExitOnDoneMs: 0, Transitions: map[string]TransitionSpec{"STOP": {Outcome: "hang"}}}, await, conf, start, Step{DelayMs: 300, Op: "kill"}), run)
